@@ -39,7 +39,6 @@ def run(ctx):
     ctx.assume("tzid_from_dt / tzp.localize / tzp.localize_utc by their documented contracts")
     for provider in ("zoneinfo", "pytz"):
         _tz_tag(ctx, provider)
-    _wall_fields(ctx)
     _utc_forced(ctx)
     _tzid_forward(ctx)
     _tzp_contract(ctx)
@@ -65,18 +64,44 @@ def _tz_tag(ctx, provider):
             return DT(kind, rank, None, zone)
         kind_ = kind
         kind = label
-        # vDatetime.to_ical: text suffix and TZID
-        o = it.call(ClassVal(vdt), [mk()], {})
+        # vDatetime.to_ical: the text (on position markers), where its fields are read from, TZID
+        from ..codecmodel import CodecInterp, describe, FIDX
+
+        class W(CodecInterp):
+            def getattr(self, o_, name):
+                if isinstance(o_, DT) and (name in FIDX or name in ("strftime", "timetuple", "isoformat")):
+                    self.__dict__.setdefault("read_from", []).append(o_)
+                return super().getattr(o_, name)
+        wit = W(m)
+        wit.provider = provider
+        stored = mk()
+        o = wit.call(ClassVal(vdt), [stored], {})
         try:
-            text = it.call(it.getattr(o, "to_ical"), [], {})
+            text = wit.call(wit.getattr(o, "to_ical"), [], {})
+            text = text.decode() if isinstance(text, bytes) else text
+            if not isinstance(text, str):
+                raise Unsupported(f"vDatetime.to_ical returned {text!r}")
+            shape = describe(text)
         except (AbsRaise, Unsupported) as e:
-            raise AnalysisError(f"vDatetime.to_ical({kind}): {e}")
-        kind = label
-        text = text.decode() if isinstance(text, bytes) else str(text)
-        ctx.check(text.endswith("Z") == want_z, "C11/TZ-TAG",
-                  f"[{provider}] vDatetime.to_ical {kind} Z-suffix",
-                  f"a {kind} date-time is written {'without' if want_z else 'with'} the "
-                  f"UTC designator Z", vdt.loc(), detail=f"Z={want_z}")
+            raise AnalysisError(f"vDatetime.to_ical({label}): {e}")
+        want = "YYYYMMDDThhmmss" + ("Z" if want_z else "")
+        if shape.rstrip("Z") == "YYYYMMDDThhmmss":
+            ctx.check(shape == want, "C11/TZ-TAG",
+                      f"[{provider}] vDatetime.to_ical {kind} Z-suffix",
+                      f"a {kind} date-time is written {'without' if want_z else 'with'} the "
+                      f"UTC designator Z ({shape})", vdt.loc(), detail=f"Z={want_z}")
+        # (the field layout itself is C03/LAYOUT's obligation)
+        reads = wit.__dict__.get("read_from", [])
+        def same_wall(r):
+            return r is stored or ((r.kind, r.zone, r.term, r.rank, r.tag) ==
+                                   (stored.kind, stored.zone, stored.term, stored.rank, stored.tag))
+        ctx.check(bool(reads) and all(same_wall(r) for r in reads), "C11/WALL-TIME",
+                  f"[{provider}] vDatetime.to_ical {kind}: fields formatted from the stored value",
+                  f"the date-time fields of a {kind} value are read from "
+                  f"{[r for r in reads if not same_wall(r)][:1] or 'nothing'}, not from the stored "
+                  f"value: a conversion sits between the stored value and the text (it moves "
+                  f"wall times, e.g. in a DST gap or for a non-normalised pytz value)",
+                  vdt.loc(), detail="six fields read from self.dt itself")
         got = tz_params(o)
         ctx.check(got == want_tzid, "C11/TZ-TAG", f"[{provider}] vDatetime {kind} TZID",
                   f"after vDatetime.to_ical a {kind} value carries TZID={got!r}, expected "
@@ -114,43 +139,6 @@ def _tz_tag(ctx, provider):
     ctx.check(v.attrs.get("dt") is d, "C11/TZ-TAG", f"[{provider}] vDDDTypes keeps supplied value",
               "vDDDTypes must store the supplied date-time unchanged", vddd.loc(),
               detail="identity preserved")
-
-
-def _wall_fields(ctx):
-    """The six DATE-TIME fields are read from the stored value directly."""
-    m = ctx.model
-    f = m.own_method("prop.vDatetime.to_ical")
-    env = SymEnv(f.node)
-    js = [n for n in ast.walk(f.node) if isinstance(n, ast.JoinedStr)
-          and sum(isinstance(v, ast.FormattedValue) for v in n.values) >= 6]
-    if not js:
-        # strftime form: the receiver must be the stored value
-        calls = [c for c in ast.walk(f.node) if isinstance(c, ast.Call)
-                 and isinstance(c.func, ast.Attribute) and c.func.attr == "strftime"]
-        if not calls:
-            raise AnalysisError("vDatetime.to_ical: neither f-string nor strftime found")
-        recv = env.expand_at(calls[0].func.value)
-        ok = isinstance(recv, ast.Attribute) and recv.attr == "dt" and is_param(recv.value, f.params[0])
-        ctx.check(ok, "C11/WALL-TIME", "fields formatted from self.dt",
-                  f"the text is formatted from `{dump(recv)}`, not from the stored value",
-                  f.loc(), detail="self.dt.strftime")
-        return
-    bad = []
-    for v in js[0].values:
-        if isinstance(v, ast.FormattedValue):
-            e = env.expand_at(v.value)
-            ok = (isinstance(e, ast.Attribute) and isinstance(e.value, ast.Attribute)
-                  and e.value.attr == "dt" and is_param(e.value.value, f.params[0]))
-            if not ok:
-                bad.append(dump(e))
-    ctx.check(not bad, "C11/WALL-TIME", "fields formatted from self.dt",
-              f"wall-clock fields are taken from {bad[:2]}: a conversion sits between "
-              f"the stored value and the text", f.loc(), detail="self.dt.<field> x 6")
-    conv = [c for c in ast.walk(f.node) if isinstance(c, ast.Call)
-            and isinstance(c.func, ast.Attribute)
-            and c.func.attr in ("astimezone", "normalize", "localize", "utctimetuple", "timetuple")]
-    ctx.check(not conv, "C11/WALL-TIME", "no conversion call in vDatetime.to_ical",
-              f"vDatetime.to_ical calls {[c.func.attr for c in conv]}", f.loc(), detail="none")
 
 
 # ---------------------------------------------------------------------------
